@@ -324,3 +324,155 @@ Proof.
       exists ops1, o1, (ops2 ++ [o]), v. split; [|tauto]. rewrite E, <- app_assoc. reflexivity.
     + exists ops, o, [], v. tauto.
 Qed.
+
+(* ------------------------------------------------------------------ *)
+(* the model's steps satisfy the decidable property (step_prop) that the *)
+(* check evaluates on the node's own outputs                            *)
+(* ------------------------------------------------------------------ *)
+
+Definition proj (p : list entry) : list (Z * bool) := map (fun e => (key e, snd e)) p.
+
+Lemma proj_keys p : map fst (proj p) = keys p.
+Proof. unfold proj, keys. rewrite map_map. reflexivity. Qed.
+
+Lemma sorted_keys_spec l : StronglySorted Z.lt l -> sorted_keys l = true.
+Proof.
+  induction 1 as [|a l Hs IH Ha]; [reflexivity|]. cbn [sorted_keys].
+  destruct l as [|b r]; [reflexivity|]. apply Forall_inv in Ha. rewrite IH. lia.
+Qed.
+
+Lemma eqb_opool_refl l : eqb_opool l l = true.
+Proof.
+  unfold eqb_opool. induction l as [|x r IH]; [reflexivity|]. cbn [eqb_list].
+  rewrite IH, Z.eqb_refl, Bool.eqb_reflx. reflexivity.
+Qed.
+
+Lemma eqb_z_list_refl l : eqb_list Z.eqb l l = true.
+Proof. induction l as [|x r IH]; [reflexivity|]. cbn [eqb_list]. now rewrite IH, Z.eqb_refl. Qed.
+
+Lemma proj_known p t : existsb (fun x => fst x =? tid t) (proj p) = known_in p t.
+Proof. unfold proj, known_in. induction p as [|e r IH]; [reflexivity|]. cbn [map existsb fst]. now rewrite IH. Qed.
+
+Lemma proj_filter (f : entry -> bool) (g : Z * bool -> bool) p :
+  (forall e, In e p -> f e = g (key e, snd e)) -> proj (filter f p) = filter g (proj p).
+Proof.
+  induction p as [|e r IH]; intros H; [reflexivity|]. cbn [filter proj map].
+  rewrite <- (H e) by now left. destruct (f e); cbn [map]; fold (proj r); fold (proj (filter f r));
+    rewrite IH by (intros x Hx; apply H; now right); reflexivity.
+Qed.
+
+Lemma without_proj_put t f p : sorted_pool p ->
+  without (tid t) (proj (pool_put t f p)) = without (tid t) (proj p).
+Proof.
+  unfold sorted_pool, without. induction p as [|e r IH]; intros Hs.
+  - cbn. unfold key. cbn [fst]. now rewrite Z.eqb_refl.
+  - cbn [keys map] in Hs. apply StronglySorted_inv in Hs. destruct Hs as [Hr He].
+    cbn [pool_put]. destruct (tid t <? key e) eqn:E1; [|destruct (tid t =? key e) eqn:E2].
+    + cbn [proj map filter fst]. unfold key at 1. cbn [fst]. now rewrite Z.eqb_refl.
+    + cbn [proj map filter fst]. unfold key at 1. cbn [fst]. fold (key e).
+      replace (key e =? tid t) with true by lia. reflexivity.
+    + cbn [proj map filter fst]. fold (proj r). fold (proj (pool_put t f r)).
+      rewrite IH by exact Hr. reflexivity.
+Qed.
+
+Lemma oflag_proj_put t f p : sorted_pool p -> oflag (proj (pool_put t f p)) (tid t) = Some f.
+Proof.
+  unfold sorted_pool, oflag. induction p as [|e r IH]; intros Hs.
+  - cbn. unfold key. cbn [fst]. now rewrite Z.eqb_refl.
+  - cbn [keys map] in Hs. apply StronglySorted_inv in Hs. destruct Hs as [Hr He].
+    cbn [pool_put]. destruct (tid t <? key e) eqn:E1; [|destruct (tid t =? key e) eqn:E2].
+    + cbn [proj map find fst]. unfold key at 1. cbn [fst]. now rewrite Z.eqb_refl.
+    + cbn [proj map find fst]. unfold key at 1. cbn [fst]. fold (key e).
+      replace (key e =? tid t) with true by lia. reflexivity.
+    + cbn [proj map find fst]. replace (key e =? tid t) with false by lia.
+      fold (proj (pool_put t f r)). now apply IH.
+Qed.
+
+(* the node's "inputs unspent" answers agree with the model's unspent set *)
+Definition agrees (s : state) (o : op) : Prop :=
+  match o with
+  | InjectForeign t v | InjectUser t _ v => v_unspent v = inputs_unspent (unspent s) t
+  | ExecBlock _ _ => True
+  | Refresh vs | RemoveInvalid vs =>
+      covered vs (pool s) = true /\
+      forall e v, In e (pool s) -> lookup (key e) vs = Some v -> v_unspent v = inputs_unspent (unspent s) (fst e)
+  end.
+
+Lemma vhard_hard_ok U t v : v_unspent v = inputs_unspent U t -> vhard v = hard_ok U t v.
+Proof. unfold vhard, hard_ok. now intros ->. Qed.
+
+Lemma inject_meets s t v before :
+  sorted_pool (pool s) -> before = proj (pool s) -> vhard v = hard_ok (unspent s) t v ->
+  let r := inject s t v in
+  (if vhard v then
+     match snd r with
+     | OInject k c =>
+        eqb_icls c (if v_soft v then IOk else ISoftFlagged)
+        && Bool.eqb k (existsb (fun x => fst x =? tid t) before)
+        && eqb_option Bool.eqb (oflag (proj (pool (fst r))) (tid t)) (Some (v_soft v))
+        && eqb_opool (without (tid t) (proj (pool (fst r)))) (without (tid t) before)
+     | _ => false
+     end
+   else
+     match snd r with
+     | OInject k c => eqb_icls c IHard && negb k && eqb_opool (proj (pool (fst r))) before
+     | _ => false
+     end) = true.
+Proof.
+  intros Hs -> Hv. cbn zeta. unfold inject. rewrite Hv.
+  destruct (hard_ok (unspent s) t v); cbn [negb fst snd pool].
+  - rewrite proj_known, Bool.eqb_reflx, oflag_proj_put, without_proj_put by exact Hs.
+    rewrite eqb_opool_refl. cbn [eqb_option]. rewrite Bool.eqb_reflx.
+    destruct (v_soft v); reflexivity.
+  - now rewrite eqb_opool_refl.
+Qed.
+
+Lemma model_meets_step_prop_l s o : sorted_pool (pool s) -> agrees s o ->
+  step_prop (proj (pool s)) (mkO o (snd (step s o)) (proj (pool (fst (step s o))))) = true.
+Proof.
+  intros Hs Ha. unfold step_prop. cbn [o_pool o_op o_out].
+  rewrite proj_keys, (sorted_keys_spec _ (step_sorted s o Hs)). cbn [andb].
+  destruct o as [t v|t u v|h txs|vs|vs]; cbn [step agrees] in *.
+  - pose proof (inject_meets s t v _ Hs eq_refl (vhard_hard_ok _ _ _ Ha)) as H. cbn zeta in H.
+    destruct (vhard v); destruct (snd (inject s t v)); try discriminate H; exact H.
+  - pose proof (vhard_hard_ok _ _ _ Ha) as Hv. unfold inject_user. rewrite Hv.
+    destruct u; cbn [negb andb].
+    + destruct (hard_ok (unspent s) t v) eqn:Eh; cbn [negb andb].
+      * destruct (v_soft v) eqn:Es; cbn [negb].
+        -- pose proof (inject_meets s t v _ Hs eq_refl (vhard_hard_ok _ _ _ Ha)) as H. cbn zeta in H.
+           rewrite Hv, Es in H. destruct (snd (inject s t v)); try discriminate H. exact H.
+        -- cbn [fst snd]. now rewrite eqb_opool_refl.
+      * cbn [fst snd]. now rewrite eqb_opool_refl.
+    + cbn [fst snd]. now rewrite eqb_opool_refl.
+  - unfold exec_block. destruct (block_ok (unspent s) h txs); cbn [fst snd pool].
+    + unfold pool_remove. erewrite proj_filter; [apply eqb_opool_refl|]. intros e _. reflexivity.
+    + apply eqb_opool_refl.
+  - destruct Ha as [Hc Hu]. unfold refresh. rewrite Hc. cbn [negb fst snd pool].
+    assert (Hr : forall e, In e (pool s) -> recheck (unspent s) vs e = vrecheck vs (key e, snd e)).
+    { intros e He. unfold recheck, vrecheck. cbn [fst].
+      destruct (lookup (key e) vs) as [v|] eqn:El; [|reflexivity].
+      now rewrite (vhard_hard_ok _ _ _ (Hu e v He El)). }
+    apply Bool.andb_true_iff. split.
+    + replace (proj (map (fun e => (fst e, recheck (unspent s) vs e)) (pool s)))
+        with (map (fun x : Z * bool => (fst x, vrecheck vs x)) (proj (pool s))); [apply eqb_opool_refl|].
+      unfold proj. rewrite !map_map. apply map_ext_in. intros e He. unfold key. cbn [fst snd].
+      now rewrite (Hr e He).
+    + replace (map fst (filter (fun x : Z * bool => negb (snd x) && vrecheck vs x) (proj (pool s))))
+        with (map key (filter (fun e => negb (snd e) && recheck (unspent s) vs e) (pool s))); [apply eqb_z_list_refl|].
+      rewrite <- (proj_filter (fun e => negb (snd e) && recheck (unspent s) vs e)
+                              (fun x => negb (snd x) && vrecheck vs x)).
+      * unfold proj. rewrite map_map. reflexivity.
+      * intros e He. cbn [snd]. now rewrite (Hr e He).
+  - destruct Ha as [Hc Hu]. unfold remove_invalid. rewrite Hc. cbn [negb fst snd pool].
+    assert (Hr : forall e, In e (pool s) -> hard_now (unspent s) vs e = vhardnow vs (key e, snd e)).
+    { intros e He. unfold hard_now, vhardnow. cbn [fst].
+      destruct (lookup (key e) vs) as [v|] eqn:El; [|reflexivity].
+      now rewrite (vhard_hard_ok _ _ _ (Hu e v He El)). }
+    apply Bool.andb_true_iff. split.
+    + rewrite (proj_filter _ (vhardnow vs)) by exact Hr. apply eqb_opool_refl.
+    + replace (map fst (filter (fun x : Z * bool => negb (vhardnow vs x)) (proj (pool s))))
+        with (map key (filter (fun e => negb (hard_now (unspent s) vs e)) (pool s))); [apply eqb_z_list_refl|].
+      rewrite <- (proj_filter (fun e => negb (hard_now (unspent s) vs e)) (fun x => negb (vhardnow vs x))).
+      * unfold proj. rewrite map_map. reflexivity.
+      * intros e He. now rewrite (Hr e He).
+Qed.
